@@ -8,3 +8,4 @@ Definition outcomes (ls:list line) : list (option exn) := map l_exn ls.
 Definition passes (ln:line) : bool := match l_exn ln, l_req ln with None, Some [] => true | _, _ => false end.
 Definition refuses (ln:line) : bool := match l_exn ln, l_req ln with None, Some (_ :: _) => true | _, _ => false end.
 Definition printed (ls:list line) : bool := existsb (fun ln => negb (Nat.eqb (l_out ln) 0)) ls.
+Definition all_outcomes_ok (ls:list line) : bool := forallb (fun ln => match l_exn ln with None => true | _ => false end) ls.
